@@ -59,6 +59,8 @@ rc, o = sh('git status --porcelain', '/repo')
 if o.strip():
     sys.exit('/repo is not clean: ' + o)
 rca, outa = sh(f'git apply {md}/patch.diff', '/repo')
+if rca != 0:
+    print('WARNING: the patch does not apply to /repo (it was made on an older base: ' + outa.strip()[:200] + '); port it and run tools_seeded_recheck.py')
 try:
     ev = f'/tmp/seeded-ev-{sid}'
     r = subprocess.run(['/verif/bin/yv', 'check', '-p', 'all', '-evidence', ev], capture_output=True, text=True, errors="replace")
